@@ -19,12 +19,18 @@ import time
 
 VERIF = os.path.dirname(os.path.dirname(os.path.abspath(__file__)))
 SPEC = os.path.join(VERIF, "spec")
-HARNESS = os.path.join(VERIF, "harness")
-WORK = os.path.join(VERIF, "work")
-TRACES = os.path.join(VERIF, "traces")
-PLANS = os.path.join(VERIF, "plans")
-REPLAY = os.path.join(VERIF, "replay")
-EVIDENCE = os.path.join(VERIF, "evidence")
+# VERIF_SCRATCH (used only by bin/mutcampaign): run against a scratch copy of the library through a scratch copy of the harness and keep
+# every by-product (traces, plans, replay files, evidence) under the scratch directory, so that a campaign never touches /repo or the
+# evidence of the registered checks.  Unset for every registered command.
+SCRATCH = os.environ.get("VERIF_SCRATCH")
+_OUT = SCRATCH or VERIF
+HARNESS = os.path.join(_OUT, "harness")
+WORK = os.path.join(_OUT, "work")
+TRACES = os.path.join(_OUT, "traces")
+PLANS = os.path.join(_OUT, "plans")
+REPLAY = os.path.join(_OUT, "replay")
+EVIDENCE = os.path.join(_OUT, "evidence")
+REPO = os.path.join(SCRATCH, "repo") if SCRATCH else "/repo"
 TLAJAR = "/opt/veriftools/tla/tla2tools.jar"
 CMJAR = "/opt/veriftools/tla/CommunityModules-deps.jar"
 GMVERIF = os.path.join(HARNESS, "target", "release", "gmverif")
@@ -81,7 +87,7 @@ def build_java():
 def build_harness():
     """Build the driver from /repo's current working tree (path dependencies, hooks on)."""
     with Lock("cargo.lock"):
-        lock_src = "/repo/Cargo.lock"
+        lock_src = os.path.join(REPO, "Cargo.lock")
         lock_dst = os.path.join(HARNESS, "Cargo.lock")
         if not os.path.exists(lock_dst):
             shutil.copy(lock_src, lock_dst)
